@@ -100,7 +100,7 @@ func (m *Middleware) Wrap(handler dnsserver.Handler) (wrapped dnsserver.Handler)
 			return nil
 		}
 
-		err = m.set(resp)
+		err = m.set(req, resp)
 		m.metrics.OnCacheItemAdded(ctx, resp, m.cache.Len(false))
 		if err != nil {
 			return fmt.Errorf("adding cache item: %w", err)
@@ -137,9 +137,10 @@ func (m *Middleware) get(req *dns.Msg) (resp *dns.Msg, found bool) {
 	return m.fromCacheItem(item, req), true
 }
 
-// set saves msg to the cache if it's cacheable.  If msg cannot be cached, it is
-// ignored.
-func (m *Middleware) set(msg *dns.Msg) (err error) {
+// set saves msg, the response to req, to the cache if it's cacheable.  If msg
+// cannot be cached, it is ignored.  The key is computed from req, the same way
+// as in get, since msg may lack an OPT RR or echo the question imprecisely.
+func (m *Middleware) set(req, msg *dns.Msg) (err error) {
 	if m == nil {
 		return nil
 	}
@@ -155,7 +156,7 @@ func (m *Middleware) set(msg *dns.Msg) (err error) {
 		setMinTTL(msg, uint32(exp.Seconds()))
 	}
 
-	key := toCacheKey(msg)
+	key := toCacheKey(req)
 	i := m.toCacheItem(msg)
 
 	return m.cache.SetWithExpire(key, i, exp)
